@@ -366,8 +366,8 @@ def c09f(ctx):
             ctx.fail(o2, vo[0], "staged operations are not stamped with an issue sequence number")
 
 
-def c09g(ctx):
-    """Clauses added after the exploratory (challenge) mutants: the write batch and the key-of-set staging layer."""
+def c09g_batch(ctx):
+    """Clauses added after the exploratory (challenge) mutants: what a write batch hands to the store."""
     prog = ctx.prog
     # ---- coalescing inside one batch keeps the LATEST operation on a key / element
     o = ctx.ob("C09.g", "batch/coalescing-keeps-the-latest-operation", "K3",
@@ -405,6 +405,10 @@ def c09g(ctx):
         for f in fams:
             if f not in seen:
                 ctx.fail(o, Site(b, 0, 0), "%s skips `%s`: those writes are never %s" % (fn, f, "persisted" if fn.endswith("write_to_db") else "un-pinned / flushed from the staging log"))
+
+
+def c09g_staging(ctx):
+    prog = ctx.prog
     # ---- a staging snapshot first applies the deferred messages
     o = ctx.ob("C09.g", "staging/snapshot-applies-deferred-messages-first", "K1",
                "ConcurrentLog::get_snapshot drains the deferred-message queue (fix) before it reads the log")
@@ -453,7 +457,8 @@ def c09g(ctx):
 
 
 def run(ctx):
-    ctx.run_clause("C09.g", c09g)
+    ctx.run_clause("C09.g", c09g_batch)
+    ctx.run_clause("C09.g", c09g_staging)
     ctx.run_clause("C09.a", c09a)
     ctx.run_clause("C09.b", c09b)
     ctx.run_clause("C09.c", c09c)
